@@ -1,5 +1,5 @@
 #!/usr/bin/env python3
-"""C10 -- decryption: either password opens the document to exactly the original content (DESIGN.md 3.C10)."""
+"""C10 -- decryption: either password opens the document to exactly the original content (DESIGN.md section 4, C10)."""
 import io
 import os
 import stringprep
@@ -53,7 +53,7 @@ MANIFEST_ENTRY = {
             "owner-then-user order; permission bits equal bits 3-5 of the stored signed P. Not provable: rejection of wrong "
             "passwords (collision resistance) -- tested.",
     "note": "Trusted: Coq kernel, hashlib/cryptography primitives, the harness encryptor written from the ISO algorithms.",
-    "design_ref": "DESIGN.md 3.C10",
+    "design_ref": "DESIGN.md section 4, C10",
 }
 
 
